@@ -1,1 +1,6 @@
 pub mod bigint;
+pub mod conv;
+pub mod gen;
+pub mod gfp;
+pub mod rd;
+pub mod stype;
